@@ -6,6 +6,7 @@
 -/
 import MoreExec.Model.Throttle
 import MoreExec.Model.Retry
+import MoreExec.Model.Poll
 
 namespace Driver.Replay
 
@@ -119,5 +120,37 @@ def stepLine (s : St) : Line → Option St
 def run (lines : Array String) : String :=
   runActs stepLine parseLine describe init lines
 end Retry
+
+namespace Poll
+open MoreExec.Poll
+
+def parseAct : List String → Option Act
+  | ["register", f, r] => some (.register (nat! f) (nat! r))
+  | ["yieldA", f, "val", v] => some (.yieldA (nat! f) (.val (nat! v)))
+  | ["yieldA", f, "exc", v] => some (.yieldA (nat! f) (.exc (nat! v)))
+  | ["cancelA", f, "none"] => some (.cancelA (nat! f) none)
+  | ["cancelA", f, "true"] => some (.cancelA (nat! f) (some (some true)))
+  | ["cancelA", f, "false"] => some (.cancelA (nat! f) (some (some false)))
+  | ["cancelA", f, "raise"] => some (.cancelA (nat! f) (some none))
+  | ["dereg", f] => some (.dereg (nat! f))
+  | ["resolveRet", f] => some (.resolveRet (nat! f))
+  | ["snapshot"] => some .snapshot
+  | ["pollRet"] => some .pollRet
+  | ["pollRaise", e] => some (.pollRaise (nat! e))
+  | ["failNext"] => some .failNext
+  | ["notifyA"] => some .notifyA
+  | ["setE"] => some .setE
+  | ["waitE"] => some .waitE
+  | ["wake"] => some .wake
+  | ["clearE"] => some .clearE
+  | _ => none
+
+def describe (s : St) : String :=
+  s!"descs={s.descs} done={s.done.map (·.1)} flag={s.flag} wpc={repr s.wpc} snap={s.snap} deregd={s.deregd} delCancelled={s.delCancelled}"
+
+def run (hdr : List String) (lines : Array String) : String :=
+  let cf := match hdr with | _ :: _ :: _ :: c :: _ => c = "1" | _ => false
+  runActs step parseAct describe (init cf) lines
+end Poll
 
 end Driver.Replay
